@@ -21,6 +21,7 @@
 #include <cmath>
 #include <filesystem>
 #include <iostream>
+#include <set>
 
 using namespace Opm::EclIO;
 namespace fs = std::filesystem;
@@ -69,13 +70,18 @@ void writeData(const OutputStream::ResultSet& rs, bool fmt, bool unif, const std
     }
 }
 
-void writeRun(const OutputStream::ResultSet& rs, bool fmt, bool unif, int nvec, const std::vector<Mini>& ms,
-              const SMSpec::RestartSpecification& restart) {
+void writeRunP(const OutputStream::ResultSet& rs, bool fmt, bool unif, const SMSpec::Parameters& prm, const std::array<int,3>& dims,
+               const std::vector<Mini>& ms, const SMSpec::RestartSpecification& restart) {
     {
-        SMSpec smspec(rs, OutputStream::Formatted{ fmt }, SMSpec::UnitConvention::Metric, { 10, 10, 3 }, restart, startDate());
-        smspec.write(makeParams(nvec));
+        SMSpec smspec(rs, OutputStream::Formatted{ fmt }, SMSpec::UnitConvention::Metric, dims, restart, startDate());
+        smspec.write(prm);
     }
     writeData(rs, fmt, unif, ms);
+}
+
+void writeRun(const OutputStream::ResultSet& rs, bool fmt, bool unif, int nvec, const std::vector<Mini>& ms,
+              const SMSpec::RestartSpecification& restart) {
+    writeRunP(rs, fmt, unif, makeParams(nvec), { 10, 10, 3 }, ms, restart);
 }
 
 void cleanDir(const std::string& d) { for (auto& e : fs::directory_iterator(d)) fs::remove_all(e.path()); }
@@ -206,10 +212,77 @@ int main(int argc, char** argv) {
                             if (!good) break; }
                         if (good && ex.startdate() != startDate()) { log.fail(key, "ExtESmry start date"); good = false; }
                     }
+                    // (iv) load *sequences* on one reader object: partial loads followed by wider ones must not
+                    //      disturb what is returned (stale per-object state)
+                    if (good && nvec >= 3) {
+                        auto cmp = [&](auto& rd, int p, const char* what) {
+                            auto& v = rd.get(esKey(p));
+                            if (v.size() != ms.size()) { log.fail(key, std::string(what) + ": series length of vector " + std::to_string(p)); return false; }
+                            for (size_t t = 0; t < ms.size(); ++t) if (!feq(ms[t].params[p], v[t], fmt)) { log.fail(key, std::string(what) + ": vector " + std::to_string(p) + " ministep " + std::to_string(t) + " read " + vh::hexF32(v[t]) + " wrote " + vh::hexF32(ms[t].params[p])); return false; }
+                            return true; };
+                        std::vector<int> some; for (int p : probes) if (rng.coin()) some.push_back(p);
+                        if (some.empty()) some.push_back(probes.back());
+                        std::vector<std::string> someKeys, allKeys; for (int p : some) someKeys.push_back(esKey(p)); for (int p : probes) allKeys.push_back(esKey(p));
+                        {   // ExtESmry: get(TIME) then loadData(); loadData(subset) then loadData(superset, with repeats)
+                            ExtESmry a(tmp + "/CASE.ESMRY"); (void) a.get("TIME"); a.loadData();
+                            for (int p : probes) if (!(good = cmp(a, p, "ExtESmry get(TIME);loadData()"))) break;
+                            if (good) { ExtESmry b(tmp + "/CASE.ESMRY"); b.loadData(someKeys); auto wide = allKeys; wide.insert(wide.end(), someKeys.begin(), someKeys.end()); b.loadData(wide);
+                                for (int p : probes) if (!(good = cmp(b, p, "ExtESmry loadData(subset);loadData(superset)"))) break; }
+                            if (good) { ExtESmry c(tmp + "/CASE.ESMRY"); (void) c.dates(); for (int p : some) (void) c.get(esKey(p)); c.loadData(allKeys);
+                                for (int p : probes) if (!(good = cmp(c, p, "ExtESmry dates();get(..);loadData(list)"))) break; }
+                        }
+                        if (good) { // ESmry: same shapes
+                            ESmry a(spec); (void) a.get("TIME"); a.loadData();
+                            for (int p : probes) if (!(good = cmp(a, p, "ESmry get(TIME);loadData()"))) break;
+                            if (good) { ESmry b(spec); b.loadData(someKeys); auto wide = allKeys; wide.insert(wide.end(), someKeys.begin(), someKeys.end()); b.loadData(wide);
+                                for (int p : probes) if (!(good = cmp(b, p, "ESmry loadData(subset);loadData(superset)"))) break; }
+                        }
+                    }
                     if (good) log.ok();
                 } catch (const std::exception& e) { log.fail(key, std::string("threw: ") + e.what()); }
                 ++nfiles;
             }
+        }
+        // block and connection vectors on non-square grids: the key carries (i,j,k) decoded from NUMS
+        for (int fmti = 0; fmti < 2; ++fmti) for (int g = 0; g < (tier == "thorough" ? 6 : 3); ++g) {
+            bool fmt = fmti;
+            cleanDir(tmp);
+            std::array<int,3> dims = g == 0 ? std::array<int,3>{ 13, 22, 11 } : std::array<int,3>{ rng.range(2, 30), rng.range(2, 30), rng.range(1, 12) };
+            std::string key = std::string(fmt ? "fmt" : "bin") + ".blockkeys.grid" + std::to_string(dims[0]) + "x" + std::to_string(dims[1]) + "x" + std::to_string(dims[2]);
+            try {
+                struct BC { std::string kw, wg; int i, j, k; };
+                std::vector<BC> bcs = { { "BPR", ":+:+:+:+", 1, 1, 1 }, { "BPR", ":+:+:+:+", dims[0], 1, 1 }, { "BPR", ":+:+:+:+", 1, 2, 1 }, { "BPR", ":+:+:+:+", dims[0], dims[1], dims[2] },
+                                        { "BSWAT", ":+:+:+:+", 1, dims[1], 1 }, { "COFR", "W1", 1, dims[1], dims[2] }, { "COFR", "W1", dims[0], 2, 1 } };
+                for (int x = 0; x < 5; ++x) bcs.push_back({ x % 2 ? "CWFR" : "BPR", x % 2 ? "W2" : ":+:+:+:+", rng.range(1, dims[0]), rng.range(1, dims[1]), rng.range(1, dims[2]) });
+                SMSpec::Parameters prm; prm.add("TIME", ":+:+:+:+", 0, "DAYS");
+                std::vector<std::string> want; std::set<std::string> seen;
+                std::vector<BC> used;
+                for (auto& b : bcs) {
+                    std::string k = b.kw[0] == 'B' ? b.kw + ":" + std::to_string(b.i) + "," + std::to_string(b.j) + "," + std::to_string(b.k)
+                                                   : b.kw + ":" + b.wg + ":" + std::to_string(b.i) + "," + std::to_string(b.j) + "," + std::to_string(b.k);
+                    if (!seen.insert(k).second) continue;
+                    int num = b.i + dims[0] * ((b.j - 1) + dims[1] * (b.k - 1));
+                    prm.add(b.kw, b.wg, num, b.kw[0] == 'B' ? "BARSA" : "SM3/DAY"); want.push_back(k); used.push_back(b);
+                }
+                int nvec = 1 + (int) want.size();
+                auto ms = makeSteps(rng, nvec, 3, 1, 0.0);
+                writeRunP(rs, fmt, true, prm, dims, ms, { "", -1 });
+                std::string spec = tmp + "/CASE." + (fmt ? "FSMSPEC" : "SMSPEC");
+                bool good = true;
+                { ESmry es(spec); es.loadData();
+                  for (size_t q = 0; good && q < want.size(); ++q) {
+                      if (!es.hasKey(want[q])) { log.fail(key, "ESmry has no key " + want[q]); good = false; break; }
+                      auto& v = es.get(want[q]);
+                      for (size_t t = 0; t < ms.size(); ++t) if (!feq(ms[t].params[q + 1], v[t], fmt)) { log.fail(key, "ESmry " + want[q] + " returns another vector's series"); good = false; break; } } }
+                if (good) { { ESmry es(spec); es.make_esmry_file(); }
+                  ExtESmry ex(tmp + "/CASE.ESMRY"); ex.loadData();
+                  for (size_t q = 0; good && q < want.size(); ++q) {
+                      if (!ex.hasKey(want[q])) { log.fail(key, "ExtESmry has no key " + want[q]); good = false; break; }
+                      auto& v = ex.get(want[q]);
+                      for (size_t t = 0; t < ms.size(); ++t) if (!feq(ms[t].params[q + 1], v[t], fmt)) { log.fail(key, "ExtESmry " + want[q] + " returns another vector's series"); good = false; break; } } }
+                if (good) log.ok();
+            } catch (const std::exception& e) { log.fail(key, std::string("threw: ") + e.what()); }
+            ++nfiles;
         }
         // base-run chaining: BASE writes report steps 1..4, RST restarts from step 2 and writes 3..5
         for (int fmti = 0; fmti < 2; ++fmti) for (int nvec : { 3, 1001 }) {
